@@ -9,7 +9,7 @@ Extraction "model.ml" add_range classes add_range_cases sorted_disjoint_from
   Scan.scan Scan.scan_n Scan.init Scan.reset Scan.table_dfa
   Bisim.bisim_check Bisim.bisim_diag Deriv.dscan_n Deriv.dinit
   LexGen.lexgen LexGen.lex_wf
-  Gen.gen_run GenAuto.gen_run_auto
+  Gen.gen_run GenAuto.gen_run_auto GenAuto.gocc_exit
   Parse.parse Parse.sem_node
   Resolve.row_action ZipTab.encode_row ZipTab.decode_row
   TokMap.terminals_z FScan.fscan_all PermRun.first_sets_z Sdt.sdt_val
